@@ -830,4 +830,68 @@ example : (0 : Rat) < (1 - 0) * (2 - 1) - (1 - 1) * (0 - 0) ∧
     cornerNbrs.map (cornerJac (revolvePoints [⟨0, 1, 0⟩, ⟨1, 1, 0⟩, ⟨1, 2, 0⟩, ⟨0, 2, 0⟩] 0 1 ⟨1, 0, 0⟩ 1 V3.zero)) =
       [1, 1, 2, 2, 1, 1, 2, 2] := by decide +kernel
 
+/-! ### Round 6d: `Connector` — what the alignment measure prefers -/
+
+/-- `FacePair.alignment` for unit normals `n1`, `n2` and the vector `v` between the two face centres, with `w = |v|` as a witness:
+    `dot(v/|v|, n1)³ + dot(−v/|v|, n2)³` -/
+def alignment (v n1 n2 : V3) (w : Rat) : Rat := (V3.dot v n1 / w) ^ 3 + (-(V3.dot v n2) / w) ^ 3
+
+theorem cube_le_one (x : Rat) (h : x * x ≤ 1) : x ^ 3 ≤ 1 ∧ (x ^ 3 = 1 → x = 1) := by
+  have hx1 : x ≤ 1 := by nlinarith [sq_nonneg (x - 1), sq_nonneg (x + 1)]
+  have hq : 0 < 1 + x + x * x := by nlinarith [sq_nonneg (x + 1 / 2)]
+  constructor
+  · nlinarith [mul_nonneg (sub_nonneg.mpr hx1) (le_of_lt hq)]
+  · intro h3
+    have : (1 - x) * (1 + x + x * x) = 0 := by ring_nf; ring_nf at h3; linarith
+    rcases mul_eq_zero.mp this with h' | h'
+    · linarith
+    · exact absurd h' (ne_of_gt hq)
+
+/-- **what `Connector` looks for**: among the candidate pairs it keeps, it takes one of maximal alignment; the alignment of any
+    pair of faces is at most 2, and it is 2 exactly when both faces look squarely at each other along the line of their centres
+    (`v · n1 = |v|`, `v · n2 = −|v|`: the outward normal of the first face points at the second face's centre and vice versa).
+    So whenever such a pair is among the candidates — two axis-aligned boxes displaced along an axis with their facing sides'
+    centres on a line parallel to that axis — only such a pair can be chosen.  (That the facing pair is among the nine closest
+    pairs, and the choice when the centres are offset sideways, stay oracle-checked.) -/
+theorem T_C10_alignment_max (v n1 n2 : V3) (w : Rat) (hw : 0 < w) (hww : w * w = V3.norm2 v)
+    (h1 : V3.norm2 n1 = 1) (h2 : V3.norm2 n2 = 1) :
+    alignment v n1 n2 w ≤ 2 ∧ (alignment v n1 n2 w = 2 ↔ V3.dot v n1 = w ∧ V3.dot v n2 = -w) := by
+  have cs : ∀ n : V3, V3.norm2 n = 1 → (V3.dot v n / w) * (V3.dot v n / w) ≤ 1 := by
+    intro n hn
+    have hl : V3.norm2 v * V3.norm2 n - V3.dot v n * V3.dot v n = V3.norm2 (V3.cross v n) := by
+      simp only [V3.norm2, V3.dot, V3.cross_x, V3.cross_y, V3.cross_z]; ring
+    have hp : 0 ≤ V3.norm2 (V3.cross v n) := by
+      simp only [V3.norm2, V3.dot]
+      nlinarith [mul_self_nonneg (V3.cross v n).x, mul_self_nonneg (V3.cross v n).y, mul_self_nonneg (V3.cross v n).z]
+    have hd : V3.dot v n * V3.dot v n ≤ w * w := by rw [hn, mul_one, ← hww] at hl; linarith
+    have : V3.dot v n / w * (V3.dot v n / w) = (V3.dot v n * V3.dot v n) / (w * w) := by field_simp
+    rw [this]
+    have hpos : 0 < w * w := mul_pos hw hw
+    have hq : V3.dot v n * V3.dot v n / (w * w) * (w * w) = V3.dot v n * V3.dot v n := div_mul_cancel₀ _ (ne_of_gt hpos)
+    by_contra hc
+    have hc : 1 < V3.dot v n * V3.dot v n / (w * w) := not_le.mp hc
+    nlinarith
+  have c1 := cube_le_one (V3.dot v n1 / w) (cs n1 h1)
+  have c2 := cube_le_one (-(V3.dot v n2) / w) (by have := cs n2 h2; rw [neg_div]; nlinarith)
+  refine ⟨by unfold alignment; linarith [c1.1, c2.1], ?_⟩
+  constructor
+  · intro h
+    unfold alignment at h
+    have e1 : (V3.dot v n1 / w) ^ 3 = 1 := by linarith [c1.1, c2.1]
+    have e2 : (-(V3.dot v n2) / w) ^ 3 = 1 := by linarith [c1.1, c2.1]
+    have x1 := c1.2 e1
+    have x2 := c2.2 e2
+    have hne : w ≠ 0 := ne_of_gt hw
+    constructor
+    · field_simp at x1; linarith
+    · field_simp at x2; linarith
+  · rintro ⟨ha, hb⟩
+    have hne : w ≠ 0 := ne_of_gt hw
+    unfold alignment
+    rw [ha, hb, neg_neg, div_self hne]
+    norm_num
+
+/-- non-vacuity: two unit boxes two units apart along x: right side of the first, left side of the second -/
+example : alignment ⟨2, 0, 0⟩ ⟨1, 0, 0⟩ ⟨-1, 0, 0⟩ 2 = 2 ∧ alignment ⟨2, 0, 0⟩ ⟨0, 1, 0⟩ ⟨-1, 0, 0⟩ 2 = 1 := by decide +kernel
+
 end CBV.C10
